@@ -2,7 +2,8 @@
 (* commonmark.Walk (walk.go) as a pushdown machine, and its requirement.
 
    Tree: nodes 1..n in pre-order; par[i] (0 for the root); blk[i] = the node is a block;
-         vroot = node 1 is the zero Node presented through custom ChildCount/Child (as format.Format does).
+         vnode = the node (0: none) that is the zero Node presented through custom ChildCount/Child: node 1 as format.Format
+         does for its virtual root, or node 2 - an interior position: the zero Node is a node like any other to Walk.
    Environment = the callbacks: prune = nodes on which Pre returns false, abort = the node on which Post
          returns false (0: none), preNil / postNil = the callback is nil.
    Machine (one action per loop iteration of walk.go): explicit stack of frames
@@ -27,9 +28,9 @@ Trees(n) == IF n = 1 THEN {<<0>>}
             ELSE UNION {{Append(t, q) : q \in Anc(t, Len(t))} : t \in Trees(n-1)}
 Kids(par, i) == LET S == {j \in 1..Len(par) : par[j] = i} IN
                 [k \in 1..Cardinality(S) |-> CHOOSE j \in S : Cardinality({m \in S : m < j}) = k - 1]
-Typings(par, vr) == {b \in [1..Len(par) -> BOOLEAN] :
-                       /\ (vr => ~b[1])
-                       /\ \A i \in 2..Len(par) : b[i] => (b[par[i]] \/ (vr /\ par[i] = 1))}
+Typings(par, vn) == {b \in [1..Len(par) -> BOOLEAN] :
+                       /\ (vn # 0 => ~b[vn])
+                       /\ \A i \in 2..Len(par) : b[i] => (b[par[i]] \/ par[i] = vn)}
 
 \* ------------------------------------------------------------------ requirement
 \* calls are tuples <<kind (1 pre, 2 post), node, parent, index, parentBlock>>
@@ -54,8 +55,8 @@ vars == <<T, stack, calls, done, tid, verdict>>
 tvars == <<tid, verdict>>
 
 Policies(n) == [prune : SUBSET (1..n), abort : 0..n, preNil : BOOLEAN, postNil : BOOLEAN]
-Init == /\ \E n \in 1..MaxNodes : \E par \in Trees(n) : \E vr \in BOOLEAN : \E b \in Typings(par, vr) : \E pol \in Policies(n) :
-             T = [par |-> par, blk |-> b, vroot |-> vr, prune |-> pol.prune, abort |-> pol.abort,
+Init == /\ \E n \in 1..MaxNodes : \E par \in Trees(n) : \E vn \in (0..2) \cap (0..n) : \E b \in Typings(par, vn) : \E pol \in Policies(n) :
+             T = [par |-> par, blk |-> b, vnode |-> vn, prune |-> pol.prune, abort |-> pol.abort,
                   preNil |-> pol.preNil, postNil |-> pol.postNil, hide |-> {}]
         /\ stack = << [node |-> 1, parent |-> 0, block |-> 0, index |-> -1, post |-> FALSE] >>
         /\ calls = <<>> /\ done = FALSE /\ tid = 0 /\ verdict = "ok"
@@ -93,14 +94,14 @@ Terminates == <>done
 \* each reachable node once: no (kind, node) pair is called twice
 OncePerNode == \A i, j \in 1..Len(calls) : i # j => ~(calls[i][1] = calls[j][1] /\ calls[i][2] = calls[j][2])
 
-Emit == done => PrintT(ToJson([par |-> T.par, blk |-> T.blk, vroot |-> T.vroot, prune |-> T.prune, abort |-> T.abort,
+Emit == done => PrintT(ToJson([par |-> T.par, blk |-> T.blk, vnode |-> T.vnode, prune |-> T.prune, abort |-> T.abort,
                                preNil |-> T.preNil, postNil |-> T.postNil, calls |-> calls]))
 
 \* ------------------------------------------------------------------ trace validation (direction B)
 \* record: par, blk, prune, abort, preNil, postNil, hide (nodes for which a custom ChildCount - with the default Child - reports 0), evs = <<kind, node, parent, index, parentBlock, consistent>>
 Traces == ndJsonDeserialize(File)
 TraceVerdict(t) ==
-  LET TT == [par |-> t.par, blk |-> [i \in 1..Len(t.blk) |-> t.blk[i] = 1], vroot |-> FALSE,
+  LET TT == [par |-> t.par, blk |-> [i \in 1..Len(t.blk) |-> t.blk[i] = 1], vnode |-> 0,
              prune |-> {t.prune[i] : i \in 1..Len(t.prune)}, abort |-> t.abort,
              preNil |-> t.preNil = 1, postNil |-> t.postNil = 1, hide |-> {t.hide[i] : i \in 1..Len(t.hide)}]
       want == Ref(TT)
